@@ -287,3 +287,26 @@ Proof.
     - apply Nat.eqb_neq in E1. apply Nat.eqb_eq in E2. subst. congruence. }
   rewrite !E by assumption. reflexivity.
 Qed.
+
+Lemma no_loops_relabel : forall V (s inv : nat -> nat) edges,
+  wf_edges V edges = true -> (forall v, (v < V)%nat -> s (inv v) = v) -> no_loops edges = true ->
+  no_loops (map (fun e => (inv (fst e), inv (snd e))) edges) = true.
+Proof.
+  intros V s inv. induction edges as [|[j k] et IH]; intros Hwf Hinv Hnl; simpl in *; auto.
+  apply andb_true_iff in Hwf. destruct Hwf as [Hjk Hwf]. apply andb_true_iff in Hjk. destruct Hjk as [Hj Hk].
+  apply Nat.ltb_lt in Hj. apply Nat.ltb_lt in Hk.
+  apply andb_true_iff in Hnl. destruct Hnl as [Hne Hnl].
+  rewrite IH by assumption. rewrite andb_true_r.
+  apply negb_true_iff. apply Nat.eqb_neq. intros E.
+  apply negb_true_iff in Hne. apply Nat.eqb_neq in Hne. apply Hne.
+  rewrite <- (Hinv j Hj), <- (Hinv k Hk), E. reflexivity.
+Qed.
+
+(* ---------- a concrete multigraph instance: the 4-site honeycomb cell honeycomb_lattice(1) ---------- *)
+Definition hc1_edges : list edge := [(0, 1); (2, 1); (2, 3); (2, 1); (0, 3); (0, 3)]%nat.
+Lemma hc1_example :
+  no_loops hc1_edges = true /\ wf_edges 4 hc1_edges = true /\
+  (* parallel edges (2,1) x 2 and (0,3) x 2 add up: entries 6 = 4 + 2 and 2 = -4 + 6 *)
+  majorana4 4 hc1_edges (Some [0; 1; 2; 0; 1; 2]%nat) [1; 1; -1; 1; -1; 1] [1; 2; 3]
+  = [[0; -2; 0; -2]; [2; 0; 6; 0]; [0; -6; 0; 6]; [2; 0; -6; 0]].
+Proof. vm_compute. repeat split. Qed.
